@@ -48,6 +48,9 @@ type trUnit struct {
 	panics  bool                // panic-aware translation: index and slice expressions are guarded, functions that can
 	                            // panic return `Outcome`
 	opaque  map[string]string   // method name -> field of Ext it stands for (a method the subset cannot express), applied to the method's name
+	subst   map[string]string   // source text of an expression over parameters and package variables -> the Lean term it stands for
+	                            // (accessors of an interface value, configuration read from another package)
+	callExt map[string]string   // source text of a callee outside the translated code -> field of Ext that stands for it
 }
 
 var trUnits = []trUnit{
@@ -87,6 +90,12 @@ var trUnits = []trUnit{
 			"h.handleOptions":   {field: "options", owner: "baseHandler", types: []string{"(GoMap GoString GoString)"}}},
 		extern:  map[string]trExtern{"config.DeserializeOptions": {lean: "Dtail.Gen.Config.DeserializeOptions", nResults: 3, canPanic: true}},
 		funcs:   []string{"baseHandler.handleProtocolVersion", "baseHandler.handleBase64", "baseHandler.handleCommand"}},
+	{ns: "Auth", pkgDir: "internal/server", panics: true,
+		structs: map[string][]string{"Server": {}},
+		subst: map[string]string{"c.User()": "c.user", "c.RemoteAddr().String()": "c.remoteAddr",
+			"config.Server.Schedule": "ext.schedule", "config.Server.Continuous": "ext.continuous"},
+		callExt: map[string]string{"user.New": "userNew", "net.LookupIP": "lookupIP"},
+		funcs:   []string{"Server.backgroundCanSSH", "Server.Callback"}},
 	{ns: "Brush", pkgDir: "internal/color/brush", panics: true,
 		structs:     map[string][]string{},
 		appendCalls: map[string]int{"color.PaintWithAttr": 1},
@@ -254,6 +263,12 @@ func (p *trPkg) leanType(e ast.Expr) string {
 			return "GoLine"
 		case "regexp.Regexp":
 			return "GoRe"
+		case "gossh.ConnMetadata":
+			return "GoConnMeta"
+		case "gossh.Permissions":
+			return "GoPerms"
+		case "user.User":
+			return "GoUser"
 		}
 	case *ast.ArrayType:
 		if _, isEllipsis := t.Len.(*ast.Ellipsis); isEllipsis {
@@ -1701,6 +1716,9 @@ func (f *trFn) binop(n ast.Node, op, x, y string) string {
 }
 
 func (f *trFn) expr(e ast.Expr) string {
+	if t, ok := f.p.unit.subst[src(e)]; ok {
+		return t
+	}
 	switch v := e.(type) {
 	case *ast.Ident:
 		switch v.Name {
@@ -1917,6 +1935,13 @@ func (f *trFn) expr(e ast.Expr) string {
 					}
 				}
 			}
+		}
+		if term, ok := f.p.unit.callExt[fn]; ok {
+			var args []string
+			for _, a := range v.Args {
+				args = append(args, f.expr(a))
+			}
+			return "(ext." + term + " " + strings.Join(args, " ") + ")"
 		}
 		switch fn {
 		case "percentOf":
@@ -2373,7 +2398,7 @@ func (p *trPkg) emitConst(sb *strings.Builder, name string) {
 }
 
 // packages whose string constants translated code may name
-var crossDirs = map[string]string{"protocol": "internal/protocol"}
+var crossDirs = map[string]string{"protocol": "internal/protocol", "config": "internal/config"}
 
 // crossConst: a string constant of another package of the repository
 func crossConst(dir, name string) (string, bool) {
